@@ -13,7 +13,7 @@ for d in $demos; do cp $d $res/; done
 export GOFLAGS=-mod=mod GOPROXY=off GOSUMDB=off
 demo_run() { # $1 = label
   mkdir -p $wt/$pkg; for d in $demos; do b=$(basename $d .txt); cp $d $wt/$pkg/$b; done
-  (cd $wt && timeout 300 go test -tags verif,mutdemo -count=1 -run "$rx" ./$pkg/ > $res/demo_$1.log 2>&1); rc=$?
+  (cd $wt && timeout 300 go test ${DEMO_FLAGS:-} -tags verif,mutdemo -count=1 -run "$rx" ./$pkg/ > $res/demo_$1.log 2>&1); rc=$?
   for d in $demos; do b=$(basename $d .txt); rm -f $wt/$pkg/$b; done
   return $rc
 }
